@@ -1118,6 +1118,8 @@ func (m *Nitro) StoreToDisk(dir string, snap *Snapshot, concurr int, itmCallback
 func hasDuplicates(files []string) bool {
 	seen := make(map[string]bool, len(files))
 	for _, f := range files {
+		// "shard-1/" and "./shard-1" open the same file as "shard-1"
+		f = filepath.Clean(f)
 		if seen[f] {
 			return true
 		}
